@@ -9,6 +9,26 @@ CLAIMED = {
    text="Every pair of the numeric universe through every numeric filter (exhaustive, both tiers) and random chains of up to 6 filters are compared with exact rational arithmetic; errors are required for zero divisors and non-numeric strings. Generated search is the right level: the property is a statement about all operand pairs, and the reference is a dozen lines of big.Rat code.",
    note="Trusted: math/big, strconv.ParseFloat, the harness's reading of 'exactly representable' (operands, intermediates and result convert to float64 without rounding). Unspecified by the statement and therefore not asserted: nil operands, numeric strings as arguments, sign of modulo with negative operands, direction of inexact integer division, integer results beyond 2^62.",
    ref="DESIGN.md 7.C17"),
+ "C01": dict(
+   technique="bounded-exhaustive filter/operator matrix over a boundary-value universe + rapid-generated hostile programs, mutations of the repository's test templates and dictionary byte strings (native go fuzzing in the thorough tier); crash/termination oracle",
+   text="Every standard filter (names read from the repository's sources at run time) x every receiver/argument tuple of an ~85-value boundary universe, every operator, lookup, loop modifier, case/when and range form over the universe, plus generated hostile programs, mutated repository templates and dictionary byte strings, are parsed and rendered under a panic guard, a hang/memory watchdog and a process supervisor; the result must be output xor a usable SourceError. Exploration is the right level: the property is a universally quantified robustness claim.",
+   note="Trusted: Go's recover/runtime stack inspection, the watchdog budgets (60 s / 3 GiB per case). Inputs that are legitimately unbounded (ranges that can exceed 10^6 elements) or would leave the sandbox (include paths with separators) are excluded by construction and counted. Asymptotic cost is not measured, only termination within the budget.",
+   ref="DESIGN.md 7.C01"),
+ "C09": dict(
+   technique="property-based testing: exhaustive operand-pair enumeration with algebraic coherence laws and a three-valued reference model; rapid-generated and/or combinations",
+   text="All ordered pairs of the plain-data universe (every kind, numeric width, Drops, pointers) under all nine operators in both directions and both forms are checked for: never an error, object form = if form, the coherence laws of the statement, and the value rules of a small reference model where the statement fixes the answer.",
+   note="Trusted: the reference comparison in harness/hx/model.go. Unspecified (not asserted): ordering of booleans/arrays/maps, equality of two different maps, string contains non-string, integers beyond 2^53 against floats. Go range values and ordered YAML maps are not comparison operands the statement speaks about and are left out of the universe.",
+   ref="DESIGN.md 7.C09"),
+ "C11": dict(
+   technique="property-based testing: bounded-exhaustive loop grid with a trace oracle, multiset oracle for maps, and rapid-generated loop nestings against a reference interpreter",
+   text="The full grid of collection length x offset x limit x reversed x for/tablerow(cols) x break/continue position x else, over six collection representations and all small range endpoint pairs, renders a trace record per iteration that is compared with the reverse-skip-take model and the forloop formulas; maps are compared as multisets; random nestings with cycles and jumps are compared with the reference interpreter.",
+   note="Trusted: the reference interpreter (harness/hx/model.go) and the trace parser. Unspecified: negative offset/limit (only internal consistency of the trace is asserted), iteration order of maps, break inside tablerow (cell text only), two cycle tags of one group with different value lists.",
+   ref="DESIGN.md 7.C11"),
+ "C12": dict(
+   technique="property-based testing: rapid-generated programs against a reference interpreter, plus the capture-equivalence metamorphic relation",
+   text="Generated programs interleaving assign, capture, loops that shadow outer names and forloop, conditionals and cycles end with a read of every variable and are compared with the reference interpreter; every generated fragment F is also rendered directly and through capture+print, which must agree.",
+   note="Trusted: the reference interpreter. The include clause of the statement is exercised by C14's check (included templates read assigned variables). Outcomes the statements leave open are counted as unspecified and asserted nowhere.",
+   ref="DESIGN.md 7.C12"),
 }
 
 REASON_PENDING = "check not built yet in this snapshot of /verif (planned: see DESIGN.md section 7); nothing is claimed for it"
